@@ -552,7 +552,9 @@ Record iter : Type := mkIter {
   it_now : N;
   it_dgrams : list dgram;      (* delivered before this iteration's processing, in delivery order *)
   it_calls : list call;
-  it_jitter : list N }.
+  it_jitter : list N;
+  it_mif : option N }.         (* observed: interface of the last IPv4 packet of this iteration (the order of
+                                  same-iteration sends to different interfaces can come from a HashSet) *)
 
 (* A name that cannot be written (a label of 64 bytes or more) trips assert!(s.len() < 64)
    in write_utf8 on the daemon thread: the thread dies at that send. *)
@@ -595,6 +597,10 @@ Fixpoint place_resends (mif : option N) (os : list out) : list out * option N :=
 Definition set_mif (st : dstate) (f : option N) : dstate :=
   mkD (d_intfs st) (d_regs st) (d_svcs st) (d_retrans st) (d_mon st) (d_dead st) f.
 
+(* the multicast interface the IPv4 socket is left with: as observed if the environment says so *)
+Definition final_mif (it : iter) (f : option N) : option N :=
+  match it_mif it with Some i => Some i | None => f end.
+
 Inductive ending := Running | Exited | Panicked.
 
 Definition iterate (st : dstate) (it : iter) : dstate * list out * ending * list N :=
@@ -608,14 +614,14 @@ Definition iterate (st : dstate) (it : iter) : dstate * list out * ending * list
     if d_dead st2 then
       let (os, p) := cut_at_panic (os1 ++ os2) in
       let (os', f) := place_resends (d_mif4 st) os in
-      (set_mif st2 f, os', if p then Panicked else Exited, js2)
+      (set_mif st2 (final_mif it f), os', if p then Panicked else Exited, js2)
     else
       let '(st3, os3, js3) := retransmit st2 now js2 in
       let '(st4, os4, js4) := probing_handler st3 now js3 in
       let (os, p) := cut_at_panic (os1 ++ os2 ++ os3 ++ os4) in
       let (os', f) := place_resends (d_mif4 st) os in
-      if p then (mkD (d_intfs st4) (d_regs st4) (d_svcs st4) (d_retrans st4) (d_mon st4) true f, os', Panicked, js4)
-      else (set_mif st4 f, os', Running, js4).
+      if p then (mkD (d_intfs st4) (d_regs st4) (d_svcs st4) (d_retrans st4) (d_mon st4) true (final_mif it f), os', Panicked, js4)
+      else (set_mif st4 (final_mif it f), os', Running, js4).
 
 Fixpoint run (st : dstate) (its : list iter) : list (list out * ending * list N) :=
   match its with
